@@ -25,7 +25,7 @@ from ..vloop import HarnessError, timer_name
 ATOMS_PLAIN = ("H", "C", "DR", "DRESP", "PR", "PRESP", "ST", "BAD", "PRE", "ENC")
 ATOMS_NOISE = ("NH", "NHE", "H", "C", "DR", "DRESP", "ST", "BAD", "PRE", "TAMPER")
 PAIRS = (
-    ("H", "C"), ("DR", "ST"), ("DR", "PR"), ("DR", "H"), ("DR", "DR"), ("BAD", "ST"), ("BAD", "PR"), ("PRE", "ST"), ("ENC", "ST"),
+    ("H", "C"), ("ST", "ST"), ("ST", "PR"), ("DR", "ST"), ("DR", "PR"), ("DR", "H"), ("DR", "DR"), ("BAD", "ST"), ("BAD", "PR"), ("PRE", "ST"), ("ENC", "ST"),
     ("C", "DR"), ("H", "DR"), ("H", "BAD"), ("NH", "DR"), ("NH", "BAD"), ("TAMPER", "ST"), ("DRESP", "ST"), ("DRESP", "PR"),
 )
 
@@ -35,6 +35,8 @@ class C08Oracle(Oracle):
         w.c08 = []  # type: ignore[attr-defined]
         from aioesphomeapi.core import MESSAGE_TYPE_TO_PROTO
 
+        w.reent = None  # type: ignore[attr-defined]
+
         def probe(msg: Any) -> None:
             # judged by the state at the start of this message's dispatch: the subscriber that closes the
             # connection may run before other subscribers of the same message
@@ -42,6 +44,15 @@ class C08Oracle(Oracle):
             w.delivered.append((w.loop.time(), type(msg).__name__, st))
             if st == "CLOSED":
                 w.c08.append(f"C08:delivery-after-close:{type(msg).__name__} delivered to a subscriber while the connection reads CLOSED")  # type: ignore[attr-defined]
+            if w.reent is not None and type(msg).__name__ not in ("HelloResponse", "ConnectResponse"):  # type: ignore[attr-defined]
+                # a subscriber that closes the connection from inside its callback (re-entrancy): frames that follow in the chunk stay undelivered
+                how, w.reent = w.reent, None  # type: ignore[attr-defined]
+                w.note("reentrant", how)
+                w.force_called = True
+                try:
+                    w.conn.force_disconnect()
+                except Exception as e:  # noqa: BLE001
+                    w.note("force_raised", type(e).__name__)
 
         try:
             w.conn.add_message_callback(probe, tuple(MESSAGE_TYPE_TO_PROTO.values()))
@@ -128,8 +139,8 @@ SCENARIOS: dict[str, tuple[bool, list[str]]] = {
     "noise-login-disconnect": (True, ["start", "tcp:ok", "finish", "c:NH", "c:H", "c:C", "c:ST", "disc", "c:DRESP"]),
     "noise-silent-device": (True, ["start", "tcp:ok", "finish", "time", "time"]),
 }
-USER_CAUSES = ("force", "disc", "cancel")
-NET_CAUSES = ("eof", "rst", "c:DR", "c:BAD", "c:PRE", "c:DR+ST", "c:DR+PR", "c:BAD+ST", "c:DR+H", "wf:sync", "wf:async")
+USER_CAUSES = ("force", "disc", "cancel", "reent")
+NET_CAUSES = ("eof", "rst", "c:DR", "c:BAD", "c:PRE", "c:DR+ST", "c:DR+PR", "c:BAD+ST", "c:DR+H", "c:ST+ST", "c:ST+PR", "wf:sync", "wf:async")
 
 
 def _inject(h: LifeHarness, w: LifeWorld, cause: str) -> bool:
@@ -143,6 +154,10 @@ def _inject(h: LifeHarness, w: LifeWorld, cause: str) -> bool:
         except Exception as e:  # noqa: BLE001
             w.note("force_raised", type(e).__name__)
         w.mon()
+        return True
+    if cause == "reent":
+        w.note("inject", cause)
+        w.reent = "force"  # type: ignore[attr-defined]
         return True
     if cause == "disc":
         if "disc" in w.tasks:
@@ -246,7 +261,7 @@ def crash_point_sweep(res: Result, tier: str) -> dict[str, Any]:
                 jobs.append((scn, ((k, c),)))
         # pairs: second cause within the next 3 (quick) / at every later (thorough) callback
         span = 3 if tier == "quick" else 12
-        pair_causes = ("force", "disc", "cancel", "eof", "c:DR", "c:BAD", "wf:sync", "c:DR+ST")
+        pair_causes = ("force", "disc", "cancel", "eof", "c:DR", "c:BAD", "wf:sync", "c:DR+ST", "reent", "c:ST+ST")
         if tier == "quick" and scn not in ("plain-login-disconnect", "noise-login-disconnect", "plain-onechunk-peerclose"):
             continue
         for k in range(b["callbacks"] + 1):
